@@ -10,7 +10,9 @@ for d in sorted(glob.glob('/verif/seeded/*/')):
     keys = m.get('violation_keys') or []
     voh = m.get('valid_on_head') or {}
     caught = 'yes' if m.get('caught_by_quick') else 'NO'
-    if voh.get('valid') is False:
+    if m.get('rejected'):
+        caught = 'n/a: rejected on confirmation (' + m['rejected'][:160] + ' ...)'
+    elif voh.get('valid') is False:
         caught = 'n/a: harmless on HEAD (' + voh.get('status', '') + '; ' + m.get('superseded_by', '') + ')'
     rows.append((name, m['property'], m.get('summary', '').replace('|', '/'), m.get('needs', '').replace('|', '/'),
                  caught, 'yes' if first == 1 else 'no (check strengthened afterwards)', '; '.join(k.replace('|', '¦') for k in keys[:3])))
